@@ -1,6 +1,7 @@
 package memberlist
 
 import (
+	"net"
 	"time"
 )
 
@@ -8,6 +9,7 @@ func init() {
 	vRegister("H_C15_Packets", H_C15_Packets)
 	vRegister("H_C15_Streams", H_C15_Streams)
 	vRegister("H_C15_KeyInstalledLater", H_C15_KeyInstalledLater)
+	vRegister("H_C15_SecretKeyConfig", H_C15_SecretKeyConfig)
 }
 
 // vCryptoFix: encryption enforced, keyring mid-rotation (new primary first, old key still installed).
@@ -241,4 +243,49 @@ func H_C15_KeyInstalledLater() {
 	vAssert(m.SendBestEffort(&peer.Node, vBytes(2)) == nil, "c15.later.send2")
 	f.vAllPacketsSealed(k2, conf.Label, "c15.later.pkt2")
 	vCover("c15.later")
+}
+
+// C15 through the real constructor: a node configured with Config.SecretKey (with or without a caller-supplied
+// keyring) seals under that key; after a runtime rotation of the keyring's primary, packets and streams follow
+// the new primary at once, whatever the static configuration said.
+func H_C15_SecretKeyConfig() {
+	conf := vBaseConfig()
+	conf.Logger = vLogger()
+	conf.Label = string(vBytes(vPick(2)))
+	k0, k1, k2 := vBytes(16), vBytes(16), vBytes(16)
+	vAssume(!vEqBytes(k1, k2) && !vEqBytes(k0, k1) && !vEqBytes(k0, k2))
+	conf.SecretKey = k1
+	if vPick(2) == 1 {
+		kr, err := NewKeyring([][]byte{k0}, k0)
+		vAssert(err == nil, "c15.cfg.keyring")
+		conf.Keyring = kr
+	}
+	rec := &vTransport{packetCh: make(chan *Packet, 1), streamCh: make(chan net.Conn, 1)}
+	conf.Transport = rec
+	m, err := newMemberlist(conf)
+	vAssert(err == nil, "c15.cfg.created")
+	if err != nil {
+		return
+	}
+	defer m.Shutdown()
+	f := &vFix{m: m, tr: rec}
+	to := Address{Addr: "10.0.0.2:7946", Name: vPeerA}
+	peer := &Node{Name: vPeerA, Addr: net.IP{10, 0, 0, 2}, Port: 7946, PMax: 2}
+	key := k1
+	if vPick(2) == 1 {
+		vAssert(conf.Keyring.AddKey(k2) == nil && conf.Keyring.UseKey(k2) == nil, "c15.cfg.rotate")
+		key = k2
+	}
+	vAssert(m.SendBestEffort(peer, vBytes(2)) == nil, "c15.cfg.send")
+	f.vAllPacketsSealed(key, conf.Label, "c15.cfg.pkt")
+	c := &vConn{}
+	rec.conn = c
+	if vPick(2) == 0 {
+		vAssert(m.sendUserMsg(to, vBytes(2)) == nil, "c15.cfg.stream")
+	} else {
+		_ = m.pushPullNode(to, false)
+	}
+	vAssert(len(c.out) > 0, "c15.cfg.stream-written")
+	vStreamSealed(c.out, key, conf.Label, conf.Label, "c15.cfg.str")
+	vCover("c15.cfg")
 }
